@@ -182,6 +182,44 @@ def detrend_1d(arr):
     trend = slope * np.arange(m, dtype=arr.dtype) + intercept
     return arr - trend.astype(arr.dtype)
 ''',
+    # the scale estimators behind estimate_scale (C15; C13 and C16 standardise with them).  Textbook definitions:
+    # IQR / 1.349; Gapper: sqrt(pi) / (n (n-1)) * sum_i i (n-i) (x_(i+1) - x_(i)); Qn: the k-th smallest pairwise distance,
+    # k = C(h, 2), h = n//2 + 1, over 0.4506; Sn: 1.1926 med_i med_j |x_i - x_j|; difference covariance.
+    "_scale_iqr": '''
+def _scale_iqr(data, axis=None):
+    data = np.asanyarray(data, dtype=np.float64)
+    norm = 1.3489795003921634
+    percentiles = np.percentile(data, [25, 75], axis=axis, keepdims=True)
+    return np.squeeze((percentiles[1] - percentiles[0]) / norm, axis=axis)
+''',
+    "_scale_gapper_1d": '''
+def _scale_gapper_1d(data):
+    n = len(data)
+    gaps = np.diff(np.sort(data))
+    weights = np.arange(1, n) * np.arange(n - 1, 0, -1)
+    return np.dot(weights, gaps) * np.sqrt(np.pi) / (n * (n - 1))
+''',
+    "_scale_qn_1d": '''
+def _scale_qn_1d(data):
+    norm = 0.4506241100243562
+    n = len(data)
+    h = n // 2 + 1
+    k = h * (h - 1) // 2
+    diffs = np.abs(data[:, None] - data)
+    return np.partition(diffs[np.triu_indices(n, k=1)].ravel(), k - 1)[k - 1] / norm
+''',
+    "_scale_sn_1d": '''
+def _scale_sn_1d(data):
+    norm = 1.1926
+    diffs = np.abs(data[:, None] - data)
+    return norm * np.median(np.median(diffs, axis=-1))
+''',
+    "_scale_diffcov_1d": '''
+def _scale_diffcov_1d(data):
+    diff = np.diff(data)
+    cov = np.cov(diff[:-1], diff[1:])
+    return np.sqrt(np.abs(cov[0, 1]))
+''',
     "estimate_zscore": '''
 def estimate_zscore(data, loc_method="median", scale_method="mad", axis=0):
     data = np.asanyarray(data, dtype=np.float32)
@@ -1440,6 +1478,26 @@ _ref_cache: dict[str, Signature] = {}
 
 # equivalent ways of writing a definition (same function, element-wise instead of slice-wise, ...): a kernel may equal any
 ALTERNATIVES: dict[str, list[str]] = {
+    # a constant lane has all pairwise distances 0: returning 0.0 for it at once is the same function
+    "_scale_qn_1d": ['''
+def _scale_qn_1d(data):
+    norm = 0.4506241100243562
+    n = len(data)
+    if data.min() == data.max():
+        return 0.0
+    h = n // 2 + 1
+    k = h * (h - 1) // 2
+    diffs = np.abs(data[:, None] - data)
+    return np.partition(diffs[np.triu_indices(n, k=1)].ravel(), k - 1)[k - 1] / norm
+'''],
+    "_scale_gapper_1d": ['''
+def _scale_gapper_1d(data):
+    n = len(data)
+    gaps = np.diff(np.sort(data))
+    idx = np.arange(1, n)
+    weights = idx * (n - idx)
+    return np.dot(weights, gaps) * np.sqrt(np.pi) / (n * (n - 1))
+'''],
     "invert_freq": ['''
 def invert_freq(array, nchans, nsamps):
     out = np.empty_like(array)
